@@ -9,8 +9,8 @@ CLAIMED = {
              text='Every path of every exported function is enumerated on the type-checked AST (non-exported callees summarised as opaque effects): first effect is the lock, a failed lock returns ERROR_MUTEX_LOCK with an empty effect trace, exactly one unlock ends the region, nothing follows it; call-graph rule: nobody reachable from a locked region locks; every other exported function is store- and callback-free. Holds for every call independently of history, so fault sequences need no enumeration.',
              note='Assumes the callback contract of cat.h (mutex callbacks set together; callbacks do not re-enter the locking API while it is held). Trusted: clang front end, catsa interpreter, call-graph construction.',
              ref='DESIGN.md 4/C16'),
- 'C17': dict(technique='static lockset (Eraser discipline) over the effect traces of the locking API',
-             text='Race-freedom clause only: every load/store of mutable parser state and every callee that may touch it, in each function of the locking API, occurs with the lock held on every path; no lock-free exported function reaches a store. With a correct mutex this excludes data races among those functions for every interleaving. Delivery exactly-once is C13 with atomic bodies.',
+ 'C17': dict(technique='static lockset (Eraser discipline), lock typestate and critical-section shape over the effect traces of the locking API',
+             text='Race-freedom clause only: every load/store of mutable parser state and every callee that may touch it, in each function of the locking API, occurs with the lock held on every path; no lock-free exported function reaches a store. With a correct mutex this excludes data races among those functions for every interleaving. No path of a locking API function returns with the lock held, takes it again while holding it, or decides in one critical section and acts (calls a state-writing function) in a later one that is conditional on the first (check-then-act). Delivery exactly-once is C13 with atomic bodies.',
              note='Decides the lockset clause, not scheduler behaviour; observers documented as lock-free and cat_init are excluded as in the property. Memory-model questions inside the user mutex are trusted.',
              ref='DESIGN.md 4/C17'),
  'C18': dict(technique='exhaustive abstract evaluation of the busy/hold predicates over all 25x11 state pairs',
@@ -73,16 +73,16 @@ CLAIMED = {
              text='Clauses of the dispatch structure, each a necessary condition of the property: handlers run only in the states of their request kind and those are entered from the dispatcher with the matching type; the request type is stored only by the suffix transitions (none/?/=/=? and implicit write); only the lookup selects a command and by the index it scanned (flat-index helpers verified against their summaries); an abbreviation is accepted only with exactly one candidate; the per-character candidate update eliminates only when too long or differing at character length-1 and promotes only when equal at the last character; the 2-bit match lanes are independent for every lane position and byte content; case fold and name alphabet are evaluated for all 256 byte values; the reader folds everything but argument bytes.',
              note='Clauses only: equality of the end-to-end result with an independent table lookup on concrete tables (registration order x prefix relations) is a value-level question and is not decided; a counter narrowed so that it wraps for tables of several hundred commands is outside reach.',
              ref='DESIGN.md 4/C02'),
- 'C07': dict(technique='agreement of sibling tables extracted from formatter and parser effect traces',
-             text='Clauses only: for every numeric type and data_size the formatter\'s load type equals the validator\'s store type (width and signedness); the printf directive per type/size is the documented one and hex-buffer bytes are printed from an unsigned 8-bit value; every escape the string formatter emits decodes to the escaped byte in the parser\'s escape table and every byte the parser treats specially is escaped; the formatter joins with the character after which the parsers continue.',
-             note='Does not decide the numeric identity parse(format(v)) = v (C library semantics plus C04), nor capacity interplay; arithmetic slips that keep the tables consistent are outside this family.',
+ 'C07': dict(technique='agreement of sibling tables extracted from formatter and parser effect traces; value-flow identity of the formatted operand',
+             text='Clauses only: for every numeric type and data_size the formatter\'s load type equals the validator\'s store type (width and signedness); the printf directive per type/size is the documented one and hex-buffer bytes are printed from an unsigned 8-bit value; every escape the string formatter emits decodes to the escaped byte in the parser\'s escape table and every byte the parser treats specially is escaped; the formatter joins with the character after which the parsers continue; the operand handed to each numeric conversion is the value loaded from the variable itself (linear form 1*load+0 through width conversions) or the constant 0 of the write-only branch.',
+             note='Does not decide the numeric identity parse(format(v)) = v (C library semantics plus C04), nor capacity interplay; an operand that is not a linear form of the load (mask, lookup) is left undecided by the identity clause.',
              ref='DESIGN.md 4/C07'),
  'C13': dict(technique='exhaustive abstract evaluation of push / pop / observers over every consistent ring state per configured capacity; who-may-write; exactly-once typestate on the event machine',
              text='For capacities 1,2,3 (quick) / 1,2,3,5,8 (thorough) push and pop are interpreted from every (head, tail, count) satisfying the ring invariant: the invariant is preserved, push writes slot tail only, pop reads slot head only, a full queue refuses with an empty store set, cat_is_unsolicited_buffer_full agrees, the buffered-event query inspects exactly the queued window; ring fields are written only by producer (trigger API), consumer (idle case of the event machine) and init; the popped pair is installed in the same step, never replaced before the reset, and every return to idle clears it. The index space is finite and enumerated completely, which covers arbitrarily many wraps.',
              note='API bodies atomic (C16/C17); acceptance order as seen through real threads is C17. Capacities other than those listed are not analysed.',
              ref='DESIGN.md 4/C13'),
  'C19': dict(technique='table extraction from effect sequences, truth-table comparison of list printer vs dispatcher over descriptor valuations, unchecked-result lint for the bounded printers',
-             text='The token printed for every (type, data_size, access) combination on every path of the TEST formatter is compared with the reference <name:TYPE[access]>; one variable per step, comma separated, description after a newline when present; for every valuation of the descriptor atoms (only_test, four handler pointers, variables present/readable/writable, implicit_write; excepted and out-of-domain valuations removed) the list printer\'s sub-machine and the dispatcher are interpreted with the atoms pinned and must agree on each of the four request forms; disabled commands and groups are skipped; no result of a bounded printer is ever ignored, so a text that does not fit ends in ERROR.',
+             text='The token printed for every (type, data_size, access) combination on every path of the TEST formatter is compared with the reference <name:TYPE[access]>; one variable per step, comma separated, description after a newline when present; for every valuation of the descriptor atoms (only_test, four handler pointers, variables present/readable/writable, implicit_write; excepted and out-of-domain valuations removed) the list printer\'s sub-machine and the dispatcher are interpreted with the atoms pinned and must agree on each of the four request forms; disabled commands and groups are skipped; no result of a bounded printer is ever ignored, so a text that does not fit ends in ERROR; every snprintf call site compares the reported length with the space it was given unless the directives cannot exceed a constant size.',
              note='The bounded printers themselves are C03 obligations. Two-character newline versus a pre-computed space check is covered only through the unchecked-result rule.',
              ref='DESIGN.md 4/C19'),
 }
